@@ -607,9 +607,33 @@ func indexOf(ks []*hashkit.Key, k *hashkit.Key) int {
 
 // named: tamperings of fields the property names as determining the block's effect.
 // generator=MinerID, parent=PrevHash, round, random seed, transactions, their outputs, resulting state, magic block.
+// A run can violate the property in several ways; the oracle reports ONE per run, preferring any signature other
+// than the two recorded findings, then the rarer of the two, so that none of them hides another.
 func oracle(ops, outs []string) *corr.Violation {
+	all := oracleAll(ops, outs)
+	rank := func(v *corr.Violation) int {
+		switch v.Signature {
+		case "C29:state-hash-not-bound":
+			return 2
+		case "C29:magic-block-content-not-bound":
+			return 1
+		}
+		return 0
+	}
+	var best *corr.Violation
+	for _, v := range all {
+		if best == nil || rank(v) < rank(best) {
+			best = v
+		}
+	}
+	return best
+}
+
+func oracleAll(ops, outs []string) (all []*corr.Violation) {
 	mk := func(sig, msg string) *corr.Violation {
-		return &corr.Violation{Signature: "C29:" + sig, Message: msg, Ops: ops, Impl: outs}
+		v := &corr.Violation{Signature: "C29:" + sig, Message: msg, Ops: ops, Impl: outs}
+		all = append(all, v)
+		return v
 	}
 	var cur *spec
 	pristineHash, pristineVerdict := "", ""
@@ -620,7 +644,7 @@ func oracle(ops, outs []string) *corr.Violation {
 			continue
 		}
 		if strings.HasPrefix(outs[i], "panic") {
-			return mk("panic", fmt.Sprintf("op %d %q panicked: %s", i, op, outs[i]))
+			mk("panic", fmt.Sprintf("op %d %q panicked: %s", i, op, outs[i]))
 		}
 		switch w[0] {
 		case "init":
@@ -633,7 +657,7 @@ func oracle(ops, outs []string) *corr.Violation {
 			pristineHash, pristineVerdict = o[1], ""
 		case "hash":
 			if o[0] == "hash" && pristineHash != "" && o[1] != pristineHash {
-				return mk("hash-not-deterministic", fmt.Sprintf("op %d: ComputeHash of the same block gave %s, before %s", i, o[1], pristineHash))
+				mk("hash-not-deterministic", fmt.Sprintf("op %d: ComputeHash of the same block gave %s, before %s", i, o[1], pristineHash))
 			}
 		case "validate":
 			pristineVerdict = outs[i]
@@ -659,12 +683,12 @@ func oracle(ops, outs []string) *corr.Violation {
 					what, sig = "resulting state (ClientStateHash)", "state-hash-not-bound"
 				case "Hash":
 					if changed && accepted {
-						return mk("hash-mismatch-accepted", fmt.Sprintf("op %d %q: block with a hash field that is not the hash of its contents passes Validate", i, op))
+						mk("hash-mismatch-accepted", fmt.Sprintf("op %d %q: block with a hash field that is not the hash of its contents passes Validate", i, op))
 					}
 				case "Signature":
 					// another spelling (hex letter case) of the same signature still "matches"
 					if changed && accepted && !strings.EqualFold(t.S[w[2]], cur.S[w[2]]) {
-						return mk("bad-signature-accepted", fmt.Sprintf("op %d %q: block with a foreign signature passes Validate", i, op))
+						mk("bad-signature-accepted", fmt.Sprintf("op %d %q: block with a foreign signature passes Validate", i, op))
 					}
 				}
 			case "i":
@@ -684,7 +708,7 @@ func oracle(ops, outs []string) *corr.Violation {
 			case "txndup":
 				// a received block (TxnsMap built) that repeats a transaction is rejected
 				if cur.Map && accepted {
-					return mk("duplicate-txn-accepted", fmt.Sprintf("op %d %q: block repeating a transaction passes Validate", i, op))
+					mk("duplicate-txn-accepted", fmt.Sprintf("op %d %q: block repeating a transaction passes Validate", i, op))
 				}
 			case "mbhash":
 				// the stored hash field of the magic block: effective hash changes unless both are the computed one
@@ -708,14 +732,15 @@ func oracle(ops, outs []string) *corr.Violation {
 				continue
 			}
 			if h == pristineHash {
-				return mk(sig, fmt.Sprintf("op %d %q: %s changed, ComputeHash unchanged (%s)", i, op, what, h))
+				mk(sig, fmt.Sprintf("op %d %q: %s changed, ComputeHash unchanged (%s)", i, op, what, h))
+				continue // that Validate then accepts too is the same defect, not a second one
 			}
 			if pristineVerdict == "ok" && accepted {
-				return mk("tampered-accepted:"+sig, fmt.Sprintf("op %d %q: %s changed in an accepted block, Validate still accepts", i, op, what))
+				mk("tampered-accepted:"+sig, fmt.Sprintf("op %d %q: %s changed in an accepted block, Validate still accepts", i, op, what))
 			}
 		}
 	}
-	return nil
+	return all
 }
 
 func fixed() [][]string {
@@ -749,7 +774,7 @@ func main() {
 			if th {
 				return 6000
 			}
-			return 300
+			return 220
 		},
 		Fixed: fixed(),
 	})
